@@ -33,6 +33,11 @@ CHECKS.update({
          'Seeded command lines in the three connection states - template-derived for every command, structurally mutated, and raw bytes - plus hostile stored messages fetched with every attribute and searched with every key, are sent to the simulated server. Oracle: every structurally complete line gets a tagged completion / * BAD / continuation / BYE within 2 virtual seconds, a canary connection keeps getting OK, the connection task never ends with an exception ([SERVERBUG]) and is never closed without BYE; a 5 s wall watchdog per loop iteration turns an infinite loop into a reported hang with its call site.',
          'Trusted: the completeness judgement for lines containing literal markers is conservative (any doubtful line is not required to be answered); the 5 s wall watchdog. ManageSieve inputs are covered by C19, not here.'),
 })
+CHECKS.update({
+ 'C07': ('exploration', '4/C07', 'seeded hostile-echo workloads plus the C01/C06/C10 generators; strict independent response parser over every byte written',
+         'Seeded workloads make the server echo client-chosen data (mailbox names with quotes, backslashes, CR/LF, NUL, 8-bit and non-ASCII, hostile headers, MIME parameters and nesting shapes) through LIST/LSUB/STATUS/FETCH/SEARCH/STORE/ID; the complete byte stream of every connection is parsed by a strict parser written from the RFC 3501 grammar, independent of pymap.parsing. The C06 input generator and the C01/C10 multi-command generators feed the same monitor.',
+         'Trusted: sim/wire.py as the reading of the grammar; it enforces what the statement lists (complete CRLF lines, literal counts, quoted-string content, balanced lists, shapes of FETCH/LIST/STATUS/ENVELOPE/BODYSTRUCTURE/response codes) and accepts empty resp-text and 8-bit bytes in quoted strings.'),
+})
 NOT_YET = {}
 def main():
     props = [json.loads(l) for l in open(os.path.join(ROOT, 'properties.jsonl'))]
